@@ -213,3 +213,23 @@ Proof.
   intros H. cbn in H. destruct (i && _ && _); [discriminate|].
   destruct (step_stream (if i then st1 y else st0 y) a (DGetFrame n r)) eqn:E; [|discriminate]. eapply getframe_needs_running; eauto.
 Qed.
+
+Lemma nth_firstn_lt {A} (l : list A) : forall k n, n < k -> nth_error (firstn k l) n = nth_error l n.
+Proof.
+  induction l as [|x l IH]; intros k n H.
+  - destruct k; destruct n; reflexivity.
+  - destruct k; [lia|]. destruct n; [reflexivity|]. cbn. apply IH. lia.
+Qed.
+
+(* every frame storage has received is, unchanged (tag = payload, frame id, hardware id, shape code), the frame the camera
+   delivered at that position *)
+Theorem stored_frames_unchanged y i n f :
+  reachable y -> nth_error (stored (stream_of y i)) n = Some f ->
+  nth_error (delivered (stream_of y i)) n = Some f /\ f_id f = N.of_nat n /\ f_hw f = N.of_nat n /\ f_tag f = cam_tag (stream_of y i).
+Proof.
+  intros Hr Hn. destruct (prefix_always y i Hr) as (Hp & Hd). cbv zeta in *.
+  assert (Hlt : n < length (stored (stream_of y i))) by (apply nth_error_Some; congruence).
+  assert (Hm : nth_error (delivered (stream_of y i)) n = Some f).
+  { rewrite Hp in Hn. rewrite nth_firstn_lt in Hn by exact Hlt. exact Hn. }
+  split; [exact Hm | apply Hd; exact Hm].
+Qed.
